@@ -945,8 +945,13 @@ func c15SkipAfterReserve(c *engine.Ctx, rule string) {
 				continue
 			}
 			n++
-			key := engine.FuncName(cl)
-			c.Analysed(key)
+			// keyed by the named function the build closure is written in (the literal's ordinal shifts with unrelated edits)
+			outerFn := cl
+			for outerFn.Parent() != nil {
+				outerFn = outerFn.Parent()
+			}
+			key := engine.FuncName(outerFn) + "|build-closure"
+			c.Analysed(engine.FuncName(cl))
 			applies := func(in ssa.Instruction) bool {
 				cc, ok := in.(*ssa.Call)
 				if !ok {
